@@ -222,5 +222,6 @@ pub struct RangeProof {
     /// The statement identifier
     pub id: String,
     /// The range proof
+    #[serde(deserialize_with = "crate::utils::deserialize_range_proof")]
     pub proof: RangeProofBulletproof,
 }
